@@ -211,3 +211,63 @@ CASES["C16"] = [
     ("twin: flexibility vectorised", "twin", SCHED, "if (False, True) not in zip(temporal, spatial):", "if not (~temporal & spatial).any():", []),
     ("twin: Template.matches via all()", "twin", AP, "        for sp, tp in zip(schedule, self):\n            if not tp.matches(sp):\n                return False\n        return True", "        return all(tp.matches(sp) for sp, tp in zip(schedule, self))", []),
 ]
+
+TSTRIDE = "snaxc/ir/tsl/tiled_stride.py"
+TSLL = "snaxc/ir/tsl/tiled_strided_layout.py"
+TSLD = "snaxc/dialects/tsl.py"
+TSLP = "snaxc/parser/tsl_parser.py"
+
+CASES["C10"] = [
+    ("reintroduce F-8 (offset parsed as integer)", "mutant", TSLP, "offset = self._parse_int_or_question()", "offset = self.parse_integer()", ["C10.nullable-token"]),
+    ("offset not printed", "mutant", TSLL, "        if self.offset != 0:\n            offset_str = str(self.offset) if self.offset is not None else \"?\"\n            result += f\", offset: {offset_str}\"\n", "", ["C10.roundtrip-fields", "internal"]),
+    ("parser drops the offset", "mutant", TSLP, "return TiledStridedLayout(tstrides, offset=offset)", "return TiledStridedLayout(tstrides)", ["C10.roundtrip-fields"]),
+    ("parser: Stride(bound, step)", "mutant", TSLP, "TiledStride([Stride(step, bound) for step, bound in zip(steps, bounds)])", "TiledStride([Stride(bound, step) for step, bound in zip(steps, bounds)])", ["C10.roundtrip-fields"]),
+    ("parser: arity check dropped", "mutant", TSLP, "        if len(steps) != len(bounds):\n            raise ParseError(self._current_token.span, \"Expected same number of steps and bounds\")\n", "", ["C10.arity"]),
+    ("printer: steps in brackets", "mutant", TSTRIDE, 'return f"[{bounds}] -> ({strides})"', 'return f"[{strides}] -> ({bounds})"', ["C10.arity"]),
+    ("affine map: modulus = own bound", "mutant", TSLD, "mod = prod([stride.bound for stride in strides[depth:] if stride.bound])", "mod = prod([stride.bound for stride in strides[depth : depth + 1] if stride.bound])", ["C10.affine-digits", "internal"]),
+    ("affine map: divisor includes own level", "mutant", TSLD, "fdiv = prod([stride.bound for stride in strides[depth + 1 :] if stride.bound])", "fdiv = prod([stride.bound for stride in strides[depth:] if stride.bound])", ["C10.affine-digits"]),
+    ("affine map: step of depth 0", "mutant", TSLD, "assert (step := self.data.get_stride(dim, depth).step)", "assert (step := self.data.get_stride(dim, 0).step)", ["C10.affine-digits"]),
+    ("affine map: no mod for inner levels", "mutant", TSLD, "                if depth > 0:\n                    result += step * ((AffineDimExpr(dim) % mod) // fdiv)\n                else:\n                    result += step * (AffineDimExpr(dim) // fdiv)\n", "                result += step * (AffineDimExpr(dim) // fdiv)\n", ["C10.affine-digits"]),
+    ("from_stride: additive chain", "mutant", TSTRIDE, "steps = [bound * steps[0] if bound and steps[0] else None, *steps]", "steps = [bound + steps[0] if bound and steps[0] else None, *steps]", ["C10.from-stride"]),
+    ("from_stride: iterates all bounds", "mutant", TSTRIDE, "for bound in reversed(tile_bounds[1:]):", "for bound in reversed(tile_bounds[:-1]):", ["C10.from-stride"]),
+    ("canonicalize: merge without step test", "mutant", TSTRIDE, "                and prev_stride.step * prev_stride.bound == stride.step\n", "", ["C10.canon"]),
+    ("canonicalize: drops bound 2", "mutant", TSTRIDE, "            if stride.bound == 1:\n                # strides with a bound of 0 are useless\n                continue\n", "            if stride.bound == 1 or stride.bound == 2:\n                continue\n", ["C10.canon"]),
+    ("canonicalize: merged keeps outer step", "mutant", TSTRIDE, "strides[0] = Stride(prev_stride.step, prev_stride.bound * stride.bound)", "strides[0] = Stride(stride.step, prev_stride.bound * stride.bound)", ["C10.canon"]),
+    ("lccb: equality with other dropped", "mutant", TSLL, "            if stride_self == stride_other:\n                result.append(stride_self)", "            if stride_self.bound == stride_other.bound:\n                result.append(stride_self)", ["C10.lccb"]),
+    ("lccb: extent = step", "mutant", TSLL, "current_stride = stride_self.step * stride_self.bound", "current_stride = stride_self.step", ["C10.lccb"]),
+    ("step ops: bytes scaling dropped", "mutant", TSLD, "step_op = ConstantOp.from_int_and_width(stride.step * el_bytes, IndexType())", "step_op = ConstantOp.from_int_and_width(stride.step, IndexType())", ["C10.view-coverage"]),
+    ("twin: canonicalize condition reordered", "twin", TSTRIDE,
+     "                prev_stride.step\n                and prev_stride.bound\n                and prev_stride.step * prev_stride.bound == stride.step\n                and stride.bound\n",
+     "                stride.bound\n                and prev_stride.step\n                and prev_stride.bound\n                and stride.step == prev_stride.step * prev_stride.bound\n", []),
+    ("twin: affine map term with commuted product", "twin", TSLD, "result += step * ((AffineDimExpr(dim) % mod) // fdiv)", "result += ((AffineDimExpr(dim) % mod) // fdiv) * step", []),
+]
+
+M2S = "snaxc/transforms/memref_to_snax.py"
+SALLOC = "snaxc/transforms/snax_allocate.py"
+
+CASES["C11"] = [
+    ("bump: store of the bump pointer deleted", "mutant", SALLOC, "        self.current_addresses[memory] = next_address\n", "", ["C11.bump", "internal"]),
+    ("bump: capacity raise deleted", "mutant", SALLOC, "        if next_address > memory.start + memory.capacity:\n            raise RuntimeError(f\"Memory space {memory.attribute.data} is full, cannot allocate {size} bytes\")\n", "", ["C11.bump"]),
+    ("bump: capacity check before alignment", "mutant", SALLOC,
+     "        if current_address % alignment != 0:\n            # align the address\n            current_address += alignment - (current_address % alignment)\n\n        next_address = current_address + size\n\n        if next_address > memory.start + memory.capacity:\n            raise RuntimeError(f\"Memory space {memory.attribute.data} is full, cannot allocate {size} bytes\")\n",
+     "        if current_address + size > memory.start + memory.capacity:\n            raise RuntimeError(f\"Memory space {memory.attribute.data} is full, cannot allocate {size} bytes\")\n\n        if current_address % alignment != 0:\n            # align the address\n            current_address += alignment - (current_address % alignment)\n\n        next_address = current_address + size\n",
+     ["C11.bump"]),
+    ("bump: capacity without start", "mutant", SALLOC, "if next_address > memory.start + memory.capacity:", "if next_address > memory.capacity:", ["C11.bump"]),
+    ("bump: rounds down", "mutant", SALLOC, "current_address += alignment - (current_address % alignment)", "current_address -= current_address % alignment", ["C11.bump", "internal"]),
+    ("bump: emits unaligned start", "mutant", SALLOC, "pointer_cst = arith.ConstantOp.from_int_and_width(current_address, builtin.i32)\n        pointer = llvm.IntToPtrOp(pointer_cst)\n\n        ops_to_insert: list[Operation] = [pointer_cst, pointer]\n\n        created_struct, ops_to_insert_struct = create_memref_struct(op, pointer.output)",
+     "pointer_cst = arith.ConstantOp.from_int_and_width(self.current_addresses[memory] - size, builtin.i32)\n        pointer = llvm.IntToPtrOp(pointer_cst)\n\n        ops_to_insert: list[Operation] = [pointer_cst, pointer]\n\n        created_struct, ops_to_insert_struct = create_memref_struct(op, pointer.output)", ["C11.bump"]),
+    ("size: offset dropped", "mutant", M2S, "            total_size_op = AddiOp(total_size_op, offset_bytes_op)\n            ops_to_add.extend([offset_op, offset_bytes_op, total_size_op])\n", "            ops_to_add.extend([offset_op, offset_bytes_op])\n", ["C11.size-deps"]),
+    ("size: steps in elements", "mutant", M2S, "layout.get_step_ops(bound_ops, alloc_op.memref, in_bytes=True)", "layout.get_step_ops(bound_ops, alloc_op.memref, in_bytes=False)", ["C11.size-deps"]),
+    ("size: only outermost bounds", "mutant", M2S, "for (dim, depth), bound_op in bound_ops.items():", "for (dim, depth), bound_op in [(k, v) for k, v in bound_ops.items() if k[1] == 0]:", ["C11.size-deps"]),
+    ("size: element size floor", "mutant", M2S, "            element_size_op = ConstantOp.from_int_and_width(element_type.size, IndexType())\n            stride_max = AddiOp(stride_max, element_size_op)", "            element_size_op = ConstantOp.from_int_and_width(element_type.bitwidth // 8, IndexType())\n            stride_max = AddiOp(stride_max, element_size_op)", ["C11.size-deps"]),
+    ("lifetime: reintroduce one-level casts only", "mutant", SALLOC, "@revert:741773c", "", ["C11.lifetime"]),
+    ("lifetime: nested uses not lifted", "mutant", SALLOC, "                    use_op = get_top_level_op(use.operation)\n                    uses[use_op].append(buffer)\n", "                    uses[use.operation].append(buffer)\n", ["C11.lifetime"]),
+    ("lifetime: subviews not followed", "mutant", SALLOC, "                    | memref.SubviewOp\n", "", ["C11.lifetime"]),
+    ("lifetime: pointer without memory.start", "mutant", SALLOC, "pointer_result[buffer.id] = offset + memory.start", "pointer_result[buffer.id] = offset", ["C11.lifetime"]),
+    ("lifetime: solver without capacity", "mutant", SALLOC, "problem = Problem(buffers_subset, memory.capacity)", "problem = Problem(buffers_subset, 2**31)", ["C11.lifetime"]),
+    ("descriptor: sizes at [3, 0]", "mutant", SALLOC, "builtin.DenseArrayBase.from_list(builtin.i64, [3, i]), llvm_struct.res, shape_op.results[0]", "builtin.DenseArrayBase.from_list(builtin.i64, [3, 0]), llvm_struct.res, shape_op.results[0]", ["C11.descriptor"]),
+    ("descriptor: pointer and aligned swapped", "mutant", SALLOC, "llvm.InsertValueOp(builtin.DenseArrayBase.from_list(builtin.i64, [0]), llvm_struct.res, pointer)", "llvm.InsertValueOp(builtin.DenseArrayBase.from_list(builtin.i64, [0]), llvm_struct.res, aligned_pointer)", ["C11.descriptor"]),
+    ("static: constant-size check dropped", "mutant", SALLOC, "        if not isinstance(op.size.op, arith.ConstantOp):\n            raise RuntimeError(\"Static allocations should have a statically known size.\")\n        if op.memory_space is None:\n            raise RuntimeError(\"Allocations need a defined memory space\")\n\n        size_attr = op.size.op.value\n        assert isa(size_attr, IntegerAttr[IndexType])\n        size = size_attr.value.data\n\n        alignment_attr = op.alignment\n        if alignment_attr is None:\n            alignment = 0\n        else:\n            alignment = alignment_attr.value.data\n\n        # get the memory space",
+     "        if op.memory_space is None:\n            raise RuntimeError(\"Allocations need a defined memory space\")\n\n        size_attr = op.size.op.value\n        assert isa(size_attr, IntegerAttr[IndexType])\n        size = size_attr.value.data\n\n        alignment_attr = op.alignment\n        if alignment_attr is None:\n            alignment = 0\n        else:\n            alignment = alignment_attr.value.data\n\n        # get the memory space", ["C11.static-size"]),
+    ("twin: capacity test spelled with not/<=", "twin", SALLOC, "if next_address > memory.start + memory.capacity:", "if not next_address <= memory.start + memory.capacity:", []),
+]
